@@ -57,6 +57,7 @@ JOBS = {
         ("e_simrt", "CExpr", "CExpr_simrt.cfg", 2, 3000, 40, {}),    # depth <= 3 with assignments, ++/--, bit-fields
         ("i_2", "CInit", "CInit_mc.cfg", 1, None, None, {}),         # initialiser lists of <= 2 items for struct S
         ("b_all", "CBytes", "CBytes_mc.cfg", 1, None, None, {}),     # bytes of every scalar type accessed through character pointers
+        ("d_3", "CDecl", "CDecl_mc.cfg", 1, None, None, {}),         # <= 3 file-scope declarations of one object (6.9.2)
         ("s_d2", "CStmt", "CStmt_mc.cfg", 2, None, None, {}),        # statement trees depth <= 2, <= 5 nodes
         ("s_sim", "CStmt", "CStmt_sim.cfg", 2, 4000, 60, {}),        # statement trees depth <= 3, <= 14 nodes
     ],
@@ -73,6 +74,7 @@ JOBS = {
         ("e_simrt", "CExpr", "CExpr_simrt.cfg", 8, 60000, 40, {}),
         ("i_3", "CInit", "CInit_t.cfg", 2, None, None, {}),
         ("b_all", "CBytes", "CBytes_mc.cfg", 1, None, None, {}),
+        ("d_3", "CDecl", "CDecl_mc.cfg", 1, None, None, {}),
         ("s_d2", "CStmt", "CStmt_mc.cfg", 2, None, None, {}),
         ("s_d3", "CStmt", "CStmt_t.cfg", 8, None, None, {}),
         ("s_sim", "CStmt", "CStmt_sim.cfg", 8, 40000, 60, {}),
@@ -300,8 +302,71 @@ def render_bytes(c, i):
     return L
 
 
+DECL_FIELDS = ["sizeof", "first", "last", "last_after_store"]
+MIR_DATA_SIZE = {"i8": 1, "u8": 1, "i16": 2, "u16": 2, "i32": 4, "u32": 4, "f": 4, "i64": 8, "u64": 8, "d": 8, "p": 8, "ref": 8, "lref": 8,
+                 "ld": 16}
+
+
+def decl_store(i):
+    return 7 + i % 90
+
+
+def decl_expected(c, i):
+    v = c["vals"]
+    first, last = v[0], v[-1]
+    one = c["kind"] == "int" or (c["kind"] == "arr" and c["n"] == 1)      # first and last are the same scalar
+    w = decl_store(i)
+    return {"D": [str(c["size"] if c["szok"] else -1), str(first), str(last), str(w)],
+            "E": [str(w if one else first), str(w)],
+            "M": ["1", str(c["size"])]}      # one definition of the composite size in the compiler's output
+
+
+def render_decl(c, i):
+    o = "o%d" % i
+    first, last = {"int": (o, o), "st": (o + ".a", o + ".b"), "arr": (o + "[0]", "%s[%d]" % (o, c["n"] - 1))}[c["kind"]]
+    L = []
+    for k, d in enumerate(c["decls"]):
+        L.append(d.replace("@", o))
+        if k + 1 == c["use"]:
+            L += ["static void c%d(void) {" % i,
+                  "  printf(\"%d D %%d %%ld %%ld\", %s, (long)%s, (long)%s);" % (i, "(int)sizeof %s" % o if c["szok"] else "-1", first, last),
+                  "  %s = %d; printf(\" %%ld\\n\", (long)%s);" % (last, decl_store(i), last), "}"]
+    L.append("static void e%d(void) { printf(\"%d E %%ld %%ld\\n\", (long)%s, (long)%s); }" % (i, i, first, last))
+    return L
+
+
+def mir_object_sizes(text):
+    """{name: [number of data/bss definitions, bytes of the first one with its unnamed continuation items]} from `c2m -S`"""
+    res, cur = {}, None
+    for line in text.splitlines():
+        m = re.match(r"^(\w+):\t(bss|i8|u8|i16|u16|i32|u32|i64|u64|f|d|ld|p|ref|lref)\t(.*)$", line)
+        m2 = re.match(r"^\t(bss|i8|u8|i16|u16|i32|u32|i64|u64|f|d|ld|p|ref|lref)\t(.*)$", line) if not m else None
+        if m:
+            name, ty, vals = m.groups()
+            ent = res.setdefault(name, [0, 0])
+            ent[0] += 1
+            cur = ent if ent[0] == 1 else None
+        elif m2 and cur is not None:
+            ty, vals = m2.groups()
+        else:
+            if not line.startswith("#") and line.strip():
+                cur = None
+            continue
+        if cur is not None:
+            cur[1] += int(vals.split()[0]) if ty == "bss" else MIR_DATA_SIZE[ty] * (1 if ty in ("ref", "lref") else len(vals.split(",")))
+    return res
+
+
 def render_file(cases, ids):
     fam = cases[0]["fam"]
+    if fam == "decl":
+        L = [PRELUDE, "struct P { int a; long b; };"]
+        for c, i in zip(cases, ids):
+            L += render_decl(c, i)
+        L.append("int main(void) {")
+        L += ["  c%d();" % i for i in ids] + ["  e%d();" % i for i in ids]
+        L += ["  printf(\"END\\n\");", "  return %d;" % (len(cases) % 50 + 3), "}"]
+        return "\n".join(L) + "\n"
     L = [PRELUDE]
     if fam == "stmt":
         L.append(STMT_PRELUDE)
@@ -342,6 +407,8 @@ static void run_case(void (*f)(void), int id) {
 
 
 def expected(c):
+    if c["fam"] == "decl":
+        return decl_expected(c, c["_id"])
     return (stmt_expected(c) if c["fam"] == "stmt" else init_expected(c) if c["fam"] == "init" else bytes_expected(c) if c["fam"] == "bytes"
             else expr_expected(c))
 
@@ -380,6 +447,17 @@ def run_engines(c2m, engines, cases, ids, tag, extra_engines=(), keep=False, slo
     else:
         rc, o, e = vlib.sh([exe], timeout=tmo)
         got, done = parse_out(o)
+        if cases[0]["fam"] == "decl":        # the reference compiler's view of the objects: symbol sizes
+            _, nm, _ = vlib.sh(["nm", "-S", exe], timeout=RUN_TIMEOUT)
+            cnt = collections.Counter()
+            sizes = {}
+            for ln in nm.splitlines():
+                f = ln.split()
+                if len(f) == 4 and re.match(r"^o\d+$", f[3]) and f[2] in "bBdDcC":
+                    cnt[f[3]] += 1
+                    sizes[f[3]] = int(f[1], 16)
+            for i in ids:
+                got[i]["M"] = [str(cnt["o%d" % i]), str(sizes.get("o%d" % i, -1))]
         res["gcc"] = ("ok" if rc == want_rc and done else "timeout" if rc == -9 else "rc(%d)" % rc, got, e[-300:])
         if not keep:
             try:
@@ -404,6 +482,16 @@ def run_engines(c2m, engines, cases, ids, tag, extra_engines=(), keep=False, slo
         else:
             st = "rc(%d)" % rc
         res[name] = (st, got, e if st == "reject" else e[-400:])
+    if cases[0]["fam"] == "decl":            # c2mir's view: the data/bss items of the module it emits
+        mirf = fn[:-2] + ".mir"
+        rc, o, e = vlib.sh([c2m, "-S", fn, "-o", mirf], timeout=RUN_TIMEOUT)
+        objs = mir_object_sizes(open(mirf).read()) if rc == 0 and os.path.exists(mirf) else {}
+        for eng in list(engines):
+            if not callable(eng[1]) and res[eng[0]][0] == "ok":
+                for i in ids:
+                    res[eng[0]][1][i]["M"] = [str(x) for x in objs.get("o%d" % i, [0, -1])]
+        if not keep and os.path.exists(mirf):
+            os.unlink(mirf)
     if not keep:
         try:
             os.unlink(fn)
@@ -420,7 +508,7 @@ class Stats:
         self.feat = collections.Counter()
 
 
-FIELDS = {"Y": [], "G": [], "T": [], "U": [], "K": [], "C": ["type", "size", "value", "enum", "arr", "case"], "R": ["type", "size", "value"], "L": ["type", "size", "value"],
+FIELDS = {"D": [], "E": [], "M": [], "Y": [], "G": [], "T": [], "U": [], "K": [], "C": ["type", "size", "value", "enum", "arr", "case"], "R": ["type", "size", "value"], "L": ["type", "size", "value"],
           "S": []}
 
 
@@ -436,6 +524,12 @@ def diff_fields(ctx, exp, got):
         names = INIT_FIELDS
     if ctx == "Y":
         names = BYTES_FIELDS
+    if ctx == "D":
+        names = DECL_FIELDS
+    if ctx == "E":
+        names = ["first_at_end", "last_at_end"]
+    if ctx == "M":
+        names = ["definitions", "object_bytes"]
     for k in range(max(len(exp), len(got))):
         a = exp[k] if k < len(exp) else None
         b = got[k] if k < len(got) else None
@@ -577,6 +671,8 @@ def judge(c2m, engines, cases, tag, stats, extra_engines=()):
                 if df:
                     stats.fail.append((c, n, ctx, df, ef, out.get(ctx), st))
 
+    for i, c in enumerate(cases):
+        c["_id"] = i          # (the value a declaration case stores into its object depends on the case number)
     first = list(vlib.chunks(list(enumerate(cases)), BATCH))
     suspects, n1 = waves(first, False)
     stats.cnt["cases_rerun_before_report"] += len(suspects)
@@ -596,11 +692,12 @@ K_ANDSWAP = "cexpr:crash:gen_O2_zero_extension_of_and_with_constant_first"
 K_BFALIAS = "cexpr:bitfield:bool_member_initialiser_alias"
 K_ADDR = "cexpr:local:narrow_object_stored_through_pointer_then_read"
 K_LOSTCOPY = "cstmt:gen_O2:postincrement_loop_test_lost_copy"
+K_DECL_TU = "cdecl:tentative_array_of_unknown_size_completed_by_another_declaration"
 K_INIT_OVR = "cinit:static:later_initialiser_of_same_scalar_ignored"
 K_INIT_PAS = "cinit:positional_initialiser_after_string_literal_member"
 K_INIT_SAB = "cinit:auto:string_literal_member_after_bitfield_or_later_member"
 CTXNAME = {"C": "const_fold", "R": "runtime", "L": "local", "S": "stmt", "*": "program", "G": "static", "T": "assigned_copy",
-           "U": "passed_and_returned", "K": "compound_literal", "Y": "bytes"}
+           "U": "passed_and_returned", "K": "compound_literal", "Y": "bytes", "D": "use", "E": "end", "M": "emitted_object"}
 NARROW = {"B", "c", "sc", "uc", "s", "us"}
 O2GROUP = {"eg-O2", "eg-O3", "el", "eb"}
 
@@ -624,6 +721,13 @@ def classify(fails):
         only_o2 = engs[id(c)] <= O2GROUP
         if c["fam"] == "bytes":
             keyed.append(("cbytes:%s:%s" % ("+".join(fields), c["sig"]), r))
+            continue
+        if c["fam"] == "decl":
+            # `int a[]; int a[3];`: c2mir sizes the object by the first tentative definition (4 bytes), uses run behind it
+            if c.get("tu") and (fields == ["object_bytes"] or (ctx in "DE" and set(fields) <= {"first", "last", "first_at_end", "last_at_end"})):
+                keyed.append((K_DECL_TU, r))
+            else:
+                keyed.append(("cdecl:%s:%s:%s" % (CTXNAME[ctx], "+".join(fields), c["sig"]), r))
             continue
         if c["fam"] == "init":
             fl = c.get("fl", [])
@@ -730,13 +834,13 @@ def gen_cases(jobs, stats, maxpar=None):
         tot_states += r.states
         tot_distinct += r.distinct
         stats.cnt["tlc_wall_s"] += int(r.wall)
-        fam = {"CStmt": "stmt", "CInit": "init", "CBytes": "bytes"}.get(kw["module"], "expr")
+        fam = {"CStmt": "stmt", "CInit": "init", "CBytes": "bytes", "CDecl": "decl"}.get(kw["module"], "expr")
         for o in r.outs:
             if "u" in o:
                 stats.cnt["dropped_%s_%s" % (fam, o["u"] if isinstance(o["u"], str) else "undefined")] += 1
                 continue
             k = ((o["c"], o["r"], json.dumps(o["lv"], sort_keys=True)) if fam == "expr" else o["body"] if fam == "stmt" else o["init"]
-                 if fam == "init" else (o["sig"], o["k"], tuple(o["st"])))
+                 if fam == "init" else o["sig"] if fam == "decl" else (o["sig"], o["k"], tuple(o["st"])))
             if fam == "bytes":
                 o["d"] = 0
             if fam == "init":
@@ -755,6 +859,8 @@ def describe(c):
         return c["body"][:500]
     if c["fam"] == "init":
         return "struct S x = " + c["init"]
+    if c["fam"] == "decl":
+        return " ".join(d.replace("@", "o") for d in c["decls"]) + " (used after declaration %d)" % c["use"]
     if c["fam"] == "bytes":
         return "%s object X (%s), P = (%s *)&X: %s" % (CT[c["ty"]], c["place"], CT[c["pt"]], " ".join(c["st"]))
     s = "`%s`" % (c["c"] or c["r"])
@@ -855,6 +961,7 @@ def run(tier, jobs=None, mutate=None, extra_engines=(), engines=None):
 def replay(path):
     d = json.load(open(path))
     c = d["case"]
+    c["_id"] = 0
     c2m = build_c2m()
     engs = [e for e in ENGINES["thorough"] if e[0] == c.get("engine")] or ENGINES["thorough"]
     fn, res = run_engines(c2m, engs, [c], [0], "replay", keep=True)
